@@ -595,6 +595,20 @@ def removal_implies_fin(cx, iid):
             cx.preceded_by(inst, ob, [(l, "clients.remove(address)") for l, _ in rems], fins, "clients.remove without state = Fin", "client.state = State::Fin")
         if n == 0:
             inst.violation("server::Server", "clients.remove", "no clients.remove site found in the server (anchor)")
+        # ... and remove(address) is the only way an entry leaves the map: retain / drain / clear / extract_if would let
+        # entries go without the terminal state (their timers then remove whatever is stored under the address later)
+        ok_methods = {"get", "get_mut", "insert", "remove", "len", "is_empty", "contains_key", "iter", "values", "keys", "entry"}
+        for ob in R.all_bodies():
+            if not ob.path.startswith("server::"):
+                continue
+            for l, t in ob.calls():
+                if not t.get("fn"):
+                    continue
+                sn = R.short(t["fn"])
+                e = show(ob.call_expr(t))
+                if sn.startswith("HashMap::") and e.startswith(sn + "(arg1.clients") and sn.split("::")[-1] not in ok_methods:
+                    inst.site(ob, l, "clients accessed through " + sn)
+                    inst.violation(ob.path, "clients." + sn.split("::")[-1], "%s changes the address map through %s: entries must leave one at a time, each after `state = Fin`" % (ob.path.split("::")[-1], sn), at=ob.span_at(l))
 
 
 def resync_walk(cx, iid):
@@ -746,6 +760,37 @@ def resend_ref_in_own_frame(cx, iid):
                     inst.violation(b.path, "datagram added after its resend reference", "a resend reference is recorded before the datagram is (re-)added: it ends up in an earlier frame's list", at=b.span_at(pl))
                     break
                 st.extend(y for y, _ in b.succ[x])
+
+
+def resend_refs_untouched(cx, iid):
+    """T3 WHO-MAY: the list of fragments a data frame carries for retransmission is only ever appended to while the
+    frame is built and handed to the frame log whole: in the emitter module the only accesses of `resend_refs` are
+    Vec::new (a fresh frame), Vec::push (one reference per resendable datagram added) and the move into
+    FrameQueue::push.  A list that is de-duplicated, truncated or filtered before it is logged makes the frame's
+    acknowledgement leave some of its fragments unacknowledged (they are retransmitted although their ack was
+    processed) or, worse, acknowledge the wrong ones."""
+    R = cx.R
+    with cx.instance(iid, "T3 WHO-MAY", "DataFrameEmitter touches resend_refs only through Vec::new / Vec::push / the move into FrameQueue::push", floor=2) as inst:
+        n = 0
+        for b in R.all_bodies():
+            if "half_connection::emit::" not in b.path:
+                continue
+            for l, t in b.calls():
+                if not t.get("fn"):
+                    continue
+                e = show(b.call_expr(t))
+                if "resend_refs" not in e:
+                    continue
+                sn = R.short(t["fn"])
+                n += 1
+                inst.site(b, l, "%s: %s" % (b.path.split("::")[-1], sn))
+                ok = (sn == "Vec::push" and re.fullmatch(r"Vec::push\(arg1\.in_progress_frame@Some\.0\.resend_refs,FragmentRef::new\(arg2,arg3\)\)", e)) or \
+                     (sn == "Vec::into_boxed_slice" and re.fullmatch(r"Vec::into_boxed_slice\(Option::take\(arg1\.in_progress_frame\)@Some\.0\.resend_refs\)", e)) or \
+                     (sn == "FrameQueue::push" and e.count("resend_refs") == 1 and re.search(r",(Vec::into_boxed_slice\()?Option::take\(arg1\.in_progress_frame\)@Some\.0\.resend_refs\)?,", e))
+                if not ok:
+                    inst.violation(b.path, "resend_refs access", "the frame's resend list is touched by `%s`: it may only be appended to and then logged whole" % e[:140], at=b.span_at(l))
+        if n < 2:
+            inst.violation("half_connection::emit::DataFrameEmitter", "resend_refs", "push / finalize no longer handle resend_refs (anchor)")
 
 
 def loss_rate_shape(cx, iid):
